@@ -490,7 +490,9 @@ def run(run):
     vsets = list(lib.multisets(vnotes, 2))
     run.explore("velocity-notes<=2", mod, "shard_velocity", [(ch, vsets) for ch in core.chunks(vsets, 32)])
     # (5) multipitch frames (MIDI lattice, dyadic)
-    mp = [60.0, 60.25, 60.5, 60.75, 61.0, 72.0, 72.5]
+    # both sides of the chroma wrap (59.5, 59.75, 71.75 -> 11.5, 11.75) so that one pitch class can be reached from
+    # above and from below the octave seam
+    mp = [59.5, 59.75, 60.0, 60.25, 60.5, 60.75, 61.0, 71.75, 72.0, 72.5]
     fr = list(lib.subsets(mp, 4 if thorough else 3))
     run.explore("multipitch-frames", mod, "shard_mpframe",
                 [(ch, fr, [0.25, 0.5, 1.0]) for ch in core.chunks(fr, 32)])
